@@ -1092,7 +1092,9 @@ def _schedule(prop, tier, seed):
                         hs.append(h)
                 if prop == "C04" and ("basic" in c.name or "empty" in c.name or c.name.endswith("_un") or c.name.endswith("_an")):
                     # getters and Arc<dyn> forwarders of the top-level searcher vs the wrapped automaton
-                    for kind in ("dfa", "cnfa") + (("nnfa",) if (c.mk == "std" and not quick) else ()):
+                    # (the forwarders are the same code whatever sits behind the trait object; two symbolic steps
+                    #  of the contiguous NFA through the dyn dispatch exhaust 16 GB - measured - so quick uses the DFA)
+                    for kind in ("dfa",) + (("cnfa",) if not quick else ()) + (("nnfa",) if (c.mk == "std" and not quick) else ()):
                         hs.append(h_ac_meta(prop, c, facts, kind))
                 if prop == "C16" and c.sk in ("both", "un") and (not quick or "basic" in c.name or "empty" in c.name or "dd" in c.name):
                     hs.append(h_recipe(prop, c, facts, "dfa", n=6 if quick else 8))
